@@ -361,9 +361,11 @@ func (r *Run) runTLC(o tlcOpts) tlcResult {
 	cmd := exec.CommandContext(ctx, "tlc", args...)
 	cmd.Dir = wd
 	cmd.Env = append(os.Environ(), o.Env...)
+	jopts := "-Xss256m"
 	if o.DFS {
-		cmd.Env = append(cmd.Env, "JAVA_TOOL_OPTIONS=-Dtlc2.tool.queue.IStateQueue=StateDeque")
+		jopts += " -Dtlc2.tool.queue.IStateQueue=StateDeque"
 	}
+	cmd.Env = append(cmd.Env, "JAVA_TOOL_OPTIONS="+jopts)
 	cmd.WaitDelay = 5 * time.Second
 	stdout, err := cmd.StdoutPipe()
 	if err != nil {
